@@ -17,6 +17,8 @@ import time
 from concurrent.futures import ThreadPoolExecutor
 
 VERIF = os.path.dirname(os.path.dirname(os.path.abspath(__file__)))
+# evidence of runs against a scratch tree (seeded changes, VERIF_EVIDENCE set by vp/seedcheck.sh) must not replace the evidence of /repo
+EVIDENCE_DIR = os.environ.get("VERIF_EVIDENCE") or os.path.join(VERIF, "evidence")
 sys.path.insert(0, os.path.join(VERIF, "vp"))
 import build  # noqa: E402
 from props import PROPS  # noqa: E402
@@ -485,7 +487,7 @@ def main(argv):
         if not a.stage and got < floor:
             inconclusive.append("coverage floor not met: stage %s counter %s = %d < %d" % (sid, cname, got, floor))
 
-    replay_dir = os.path.join(VERIF, "evidence", "replay", pid)
+    replay_dir = os.path.join(EVIDENCE_DIR, "replay", pid)
     vio_records = []
     if new_viol or kf_seen:
         os.makedirs(replay_dir, exist_ok=True)
@@ -523,10 +525,10 @@ def main(argv):
         "assumptions": cfg.get("assumptions", []), "wall_s": round(wall, 1), "violations": len(new_viol),
     }
     if not a.stage:
-        os.makedirs(os.path.join(VERIF, "evidence"), exist_ok=True)
-        tmp = os.path.join(VERIF, "evidence", ".%s.json.tmp" % pid)
+        os.makedirs(EVIDENCE_DIR, exist_ok=True)
+        tmp = os.path.join(EVIDENCE_DIR, ".%s.json.tmp" % pid)
         json.dump(evidence, open(tmp, "w"), indent=1, sort_keys=False)
-        os.replace(tmp, os.path.join(VERIF, "evidence", "%s.json" % pid))
+        os.replace(tmp, os.path.join(EVIDENCE_DIR, "%s.json" % pid))
     if not a.keep_work:
         shutil.rmtree(workdir, ignore_errors=True)
         try:
